@@ -124,6 +124,29 @@ class Hist:
         self.uniq += 1
         self.ev.append("S:763d30%04x+r%d.%d" % (self.uniq, self.rng.choice([40, 300]), self.uniq))
 
+    def sdp_real(self, v):
+        """a parseable SDP: video PT 96 (a = H264, h = H265, o = a codec lal does not know), audio PT 97"""
+        self.uniq += 1
+        self.cur_v = v
+        self.ev.append("S:%s:u%d" % (v, self.uniq))
+
+    def play(self, i):
+        self.ev.append("Y:%d" % i)
+
+    def rtp(self, cls, **kw):
+        """one RTP packet of class cls (see RTP_BODIES) for the codec of the current SDP"""
+        self.uniq += 1
+        self.seq = getattr(self, "seq", self.rng.randrange(65000, 65536)) + 1
+        v = getattr(self, "cur_v", "a")
+        if cls == "alien" and v == "o":
+            cls = "non"      # a packet of a payload type the SDP does not announce never reaches the group (BaseInSession drops it);
+                             # it is generated only where it is no GOP start, and under an unknown codec every packet is one
+        pt, body = rtp_body(v, cls)
+        fill = self.rng.choice([0, 0, 3, 40, 1400])
+        body = body + bytes([self.uniq & 255, (self.uniq >> 8) & 255]) * (1 if cls not in RTP_SHORT else 0)
+        body += bytes((self.uniq * 7 + i) & 255 for i in range(fill if cls not in RTP_SHORT else 0))
+        self.ev.append("R:" + hex_tok(rtp_packet(pt, self.seq & 0xFFFF, (self.uniq * 3000) & 0xFFFFFFFF, body, **kw)))
+
     def describe(self):
         i = self.next_id
         self.next_id += 1
@@ -136,6 +159,10 @@ class Hist:
     def tick(self):
         self.ev.append("K")
 
+    def dispose(self):
+        """Group.Dispose(): must be the last event of a history"""
+        self.ev.append("X")
+
     def stop_quick(self):
         self.ev.append("Oq")
 
@@ -146,6 +173,166 @@ class Hist:
     def pat(self):
         self.uniq += 1
         self.ev.append("A:4740%04x+r373.%d" % (self.uniq, self.uniq))
+
+
+# ---------------------------------------------------------------------------
+# RTP packets for RTSP subscribers (RFC 3550 header, RFC 6184 / RFC 7798 payload heads)
+
+def rtp_packet(pt, seq, ts, body, marker=0, pad=0, ncsrc=0, ext=None, ssrc=0x11223344):
+    b0 = 0x80 | (0x20 if pad else 0) | (0x10 if ext is not None else 0) | ncsrc
+    out = bytes([b0, (marker << 7) | pt]) + seq.to_bytes(2, "big") + ts.to_bytes(4, "big") + ssrc.to_bytes(4, "big")
+    out += b"".join((0xC0000000 + i).to_bytes(4, "big") for i in range(ncsrc))
+    if ext is not None:
+        out += bytes([0xBE, 0xDE]) + (len(ext) // 4).to_bytes(2, "big") + ext
+    out += body
+    if pad:
+        out += bytes(pad - 1) + bytes([pad])
+    return out
+
+
+_AVC = {
+    "sps": bytes([0x67, 0x64, 0, 0x1f]), "pps": bytes([0x68, 0xee, 0x3c, 0x80]), "idr": bytes([0x65, 0x88, 0x84, 0]),
+    "non": bytes([0x41, 0x9a, 0x02, 0x05]), "sei": bytes([0x06, 5, 1, 0x80]), "aud": bytes([0x09, 0x10]),
+    "stap_key": bytes([0x78, 0, 4, 0x67, 0x64, 0, 0x1f, 0, 2, 0x68, 0xee]), "stap_non": bytes([0x78, 0, 3, 0x41, 0x9a, 2]),
+    "fu_key_start": bytes([0x7c, 0x85, 0x88, 0x84]), "fu_key_mid": bytes([0x7c, 0x05, 0x11, 0x22]), "fu_key_end": bytes([0x7c, 0x45, 0x11, 0x22]),
+    "fu_non_start": bytes([0x7c, 0x81, 0x9a, 2]), "fu_non_mid": bytes([0x7c, 0x01, 0x9a, 2]),
+    # heads too short for the byte the classifier wants to look at
+    "short_stap": bytes([0x78, 0, 4]), "short_fu": bytes([0x7c]), "one_idr": bytes([0x65]), "one_non": bytes([0x41]),
+}
+_HEVC = {
+    "sps": bytes([0x42, 1, 1, 1]), "pps": bytes([0x44, 1, 0xc0, 0x73]), "vps": bytes([0x40, 1, 0x0c, 1]), "idr": bytes([0x26, 1, 0xaf, 0x08]),
+    "cra": bytes([0x2a, 1, 0xaf, 0x08]), "non": bytes([0x02, 1, 0xd0, 0x09]), "sei": bytes([0x4e, 1, 5, 1]), "aud": bytes([0x46, 1, 0x50]),
+    "stap_key": bytes([0x60, 1, 0, 4, 0x42, 1, 1, 1]), "stap_non": bytes([0x60, 1, 0, 4, 0x02, 1, 0xd0, 9]),   # aggregation packet (48): lal does not look inside
+    "fu_key_start": bytes([0x62, 1, 0x93, 0xaf]), "fu_key_mid": bytes([0x62, 1, 0x13, 0xaf]), "fu_key_end": bytes([0x62, 1, 0x53, 0xaf]),
+    "fu_non_start": bytes([0x62, 1, 0x81, 0xd0]), "fu_non_mid": bytes([0x62, 1, 0x01, 0xd0]),
+    "short_stap": bytes([0x60, 1]), "short_fu": bytes([0x62, 1]), "one_idr": bytes([0x26]), "one_non": bytes([0x02]),
+}
+RTP_SHORT = ("short_stap", "short_fu", "one_idr", "one_non")
+RTP_BODIES = {"a": _AVC, "h": _HEVC, "o": _AVC}
+
+
+def rtp_body(v, cls):
+    if cls == "audio":
+        return 97, bytes([0x00, 0x10, 0x0a, 0x40, 0x21, 0x10])     # AAC-hbr: AU-headers-length 16, one AU header
+    if cls == "alien":
+        return 98, RTP_BODIES[v]["non"]                                # a payload type the SDP does not announce
+    return 96, RTP_BODIES[v][cls]
+
+
+RTP_STREAMS = {
+    "plain": ["sps", "pps", "idr", "audio", "non", "non", "audio", "non", "idr", "non", "audio", "non"],
+    "packed": ["stap_key", "fu_key_start", "fu_key_mid", "fu_key_end", "audio", "fu_non_start", "fu_non_mid", "stap_non", "audio", "fu_key_mid",
+               "fu_key_start", "fu_key_end", "non"],
+    "edges": ["non", "short_stap", "short_fu", "one_non", "audio", "sei", "aud", "alien", "one_idr", "non", "audio", "short_fu", "cra" if False else "idr", "non"],
+    "audio": ["audio", "audio", "audio", "audio", "audio", "audio"],
+    "nokey": ["non", "audio", "non", "fu_non_start", "fu_key_mid", "stap_non", "audio", "non"],
+}
+
+
+def gen_rtsp_histories(tier, rng, multi_epoch=False):
+    """RTSP subscribers: real rtsp command sessions (DESCRIBE / SETUP / PLAY) joining at every index of RTP streams"""
+    base = dict(re=1, rg=1, rm=0, fe=1, fg=1, fm=0, tg=0, tm=0, mw=0, rec=0)
+    hdr_opts = [dict(), dict(pad=4), dict(ncsrc=2), dict(ext=bytes(8)), dict(ext=b"", marker=1), dict(pad=1, ncsrc=1, ext=bytes(4))]
+    count = 0
+    if not multi_epoch:
+        for v in ("a", "h", "o"):
+            for rw in (1, 0):
+                for known in (True, False):
+                    for sname in sorted(RTP_STREAMS):
+                        seq = RTP_STREAMS[sname]
+                        if v == "h" and sname == "edges":
+                            seq = [("cra" if x == "sei" else x) for x in seq]
+                        for pos in range(len(seq) + 1):
+                            count += 1
+                            if tier == "quick" and (count % 3 != 0) and not (rw == 1 and known and v != "o" and sname != "audio"):
+                                continue
+                            c = dict(base)
+                            c["rw"] = rw
+                            h = Hist(rng, c)
+                            early = h.describe()          # DESCRIBE before any SDP exists: answered when the SDP arrives
+                            h.start(pat=False)
+                            if known:
+                                h.pub("vsh" if v != "h" else "hvsh", ts=0)
+                            h.sdp_real(v)
+                            h.play(early)
+                            mid = slow = None
+                            for idx, cls in enumerate(seq):
+                                if idx == pos:
+                                    mid = h.describe()
+                                    h.play(mid)
+                                    slow = h.describe()
+                                if slow is not None and idx == pos + 2:
+                                    h.play(slow)
+                                if mid is not None and idx == pos + 5 and count % 2:
+                                    h.leave(mid)
+                                h.rtp(cls, **rng.choice(hdr_opts))
+                                if rng.random() < 0.2:
+                                    h.pub("inter" if known else "aac", ts=idx * 40)
+                            if pos >= len(seq):
+                                mid = h.describe()
+                                h.play(mid)
+                                h.rtp("non")
+                                h.rtp("idr")
+                                h.rtp("non")
+                            yield Case(h.line(), cls="rtsp-join-%s-%s" % (v, sname))
+    # several inputs of the name while RTSP subscribers stay attached; packets that arrive after the input ended
+    n = (60 if tier == "quick" else 600) if not multi_epoch else (80 if tier == "quick" else 800)
+    for k in range(n):
+        c = dict(base)
+        c["rw"] = rng.choice([1, 1, 0])
+        if multi_epoch:
+            c["rec"] = 1
+            c["hook"] = 1
+        h = Hist(rng, c)
+        subs = []
+        for e in range(rng.choice([1, 2, 2, 3])):
+            if rng.random() < 0.4:
+                subs.append([h.describe(), False])
+            h.start(pat=False)
+            v = rng.choice(["a", "a", "h", "o"])
+            known = rng.random() < 0.7
+            if known and rng.random() < 0.5:
+                h.pub("vsh" if v != "h" else "hvsh", ts=0)
+                known = False
+            h.sdp_real(v)
+            seq = list(RTP_STREAMS[rng.choice(sorted(RTP_STREAMS))])
+            if rng.random() < 0.3:
+                rng.shuffle(seq)
+            for cls in seq[:rng.randrange(0, len(seq) + 1)]:
+                a = rng.random()
+                if a < 0.2:
+                    subs.append([h.describe(), False])
+                elif a < 0.45 and subs:
+                    x = rng.choice(subs)
+                    h.play(x[0])
+                elif a < 0.5 and subs:
+                    h.leave(subs.pop(rng.randrange(len(subs)))[0])
+                elif a < 0.6 and known:
+                    h.pub("vsh" if v != "h" else "hvsh", ts=0)
+                    known = False
+                elif a < 0.65:
+                    h.sdp_real(v)        # the SDP is announced again (an RTSP pull that re-describes)
+                if v == "h" and cls == "sei" and rng.random() < 0.5:
+                    cls = "cra"
+                h.rtp(cls)
+            h.stop()
+            if rng.random() < 0.5:
+                # late packets: the publisher's RTP goroutine may still deliver after the input was removed
+                for cls in rng.sample(["idr", "non", "audio", "sps"], 2):
+                    h.rtp(cls)
+            if rng.random() < 0.3 and subs:
+                h.play(rng.choice(subs)[0])
+        if multi_epoch and k % 3 == 0:
+            if rng.random() < 0.6:
+                h.start(pat=False)
+                h.sdp_real("a")
+                h.pub("vsh", ts=0)
+                for x in subs:
+                    h.play(x[0])
+                h.rtp("idr")
+                h.rtp("non")
+            h.dispose()
+        yield Case(h.line(), cls="rtsp-random%s" % ("-epochs" if multi_epoch else ""))
 
 
 CFGS = [
@@ -347,3 +534,151 @@ def without_sdf(p):
     if len(p) >= 3 and p[0] == 2 and (p[1] << 8 | p[2]) <= len(p) - 3 and p[:16] == SDF:
         return p[16:]
     return p
+
+
+# ---------------------------------------------------------------------------
+# RTSP subscribers: the property clauses, from RFC 3550 / 6184 / 7798 and the history text alone
+
+def rtp_parse(raw):
+    """(payload type, payload) of an RTP packet, None when it is not well-formed (RFC 3550 5.1, 5.3.1)"""
+    if len(raw) < 12:
+        return None
+    cc = raw[0] & 15
+    off = 12 + 4 * cc
+    if len(raw) < off:
+        return None
+    if raw[0] & 0x10:
+        if len(raw) < off + 4:
+            return None
+        off += 4 + 4 * (raw[off + 2] << 8 | raw[off + 3])
+        if len(raw) < off:
+            return None
+    end = len(raw)
+    if raw[0] & 0x20:
+        end -= raw[-1]
+    if end <= off:
+        return None
+    return raw[1] & 0x7f, raw[off:end]
+
+
+_AVC_START = (5, 7, 8)
+_HEVC_START = tuple(range(16, 24)) + (32, 33, 34)
+
+
+def rtp_gop_start(v, body):
+    """does this video payload begin a random access point (parameter sets or an IDR/IRAP slice)?"""
+    if v == "a":
+        t = body[0] & 31
+        if t in _AVC_START:
+            return True
+        if t == 24:      # STAP-A: the first aggregated NAL unit
+            return len(body) > 3 and (body[3] & 31) in _AVC_START
+        if t == 28:      # FU-A: only the fragment with the start bit
+            return len(body) > 1 and bool(body[1] & 0x80) and (body[1] & 31) in _AVC_START
+        return False
+    if v == "h":
+        t = (body[0] >> 1) & 63
+        if t in _HEVC_START:
+            return True
+        if t == 49:
+            return len(body) > 2 and bool(body[2] & 0x80) and (body[2] & 63) in _HEVC_START
+        return False
+    return True          # a codec the server cannot classify: nothing to wait for
+
+
+def check_rtsp(cfg, evs, obs, clauses=("sdp", "gate", "run")):
+    """every RTSP subscriber (D events) of the history; returns None or (tag, message)"""
+    pkts = []        # dict(pos, pt, body, sdp=(k, v) in force or None)
+    sdps = []        # positions
+    inforce = None
+    in_epoch = False
+    video_known_at = {}   # pos -> bool, for PLAY positions
+    known = False
+    dpos, ypos, lpos = {}, {}, {}
+    force_at = {}
+    for pos, e in enumerate(evs):
+        if e[0] == "I":
+            in_epoch = True
+        elif e[0] in ("O", "Oq"):
+            if in_epoch:
+                in_epoch, inforce, known = False, None, False
+        elif e[0] == "X":
+            in_epoch, inforce, known = False, None, False
+            for cid in dpos:
+                lpos.setdefault(cid, pos)
+        elif e[0] == "P":
+            p = tok_bytes(e[3])
+            if classify_payload(int(e[1]), p) == "vsh":
+                known = True
+        elif e[0] == "S":
+            inforce = (len(sdps), e[1] if len(e) == 3 else "o")
+            sdps.append(pos)
+        elif e[0] == "D" and e[1] not in dpos:
+            dpos[e[1]] = pos
+            force_at[e[1]] = inforce
+        elif e[0] == "Y":
+            video_known_at[pos] = known
+            ypos.setdefault(e[1], []).append(pos)
+        elif e[0] == "L":
+            lpos.setdefault(e[1], pos)
+        elif e[0] == "R":
+            raw = tok_bytes(e[1])
+            pr = rtp_parse(raw)
+            pkts.append(dict(pos=pos, pt=pr[0] if pr else None, body=pr[1] if pr else None, sdp=inforce))
+    for cid, d in sorted(dpos.items()):
+        segs = obs.get(cid)
+        if segs is None:
+            return ("missing", "RTSP subscriber %s missing from the observation" % cid)
+        out = segs[0]
+        end = lpos.get(cid, len(evs))
+        bad = [l for l in out if l[0] == "?"]
+        if bad:
+            return ("garbage", "RTSP subscriber %s received %s" % (cid, bad[0]))
+        # SDP first: the description in force at DESCRIBE, else the first one announced while the session waits
+        want = None
+        if force_at[cid] is not None:
+            want = force_at[cid][0]
+            got_sdp_pos = d
+        else:
+            later = [k for k, p in enumerate(sdps) if d < p < end]
+            if later:
+                want = later[0]
+            got_sdp_pos = sdps[want] if want is not None else None
+        if "sdp" in clauses:
+            if want is None:
+                if out:
+                    return ("sdp", "RTSP subscriber %s received %s although no stream description existed while it was attached" % (cid, out[:4]))
+                continue
+            if out[:1] != ["d%d" % want]:
+                return ("sdp", "RTSP subscriber %s: first thing received is %s, the SDP in force is d%d" % (cid, out[:1], want))
+            if any(l[0] == "d" for l in out[1:]):
+                return ("sdp", "RTSP subscriber %s received a second DESCRIBE response" % cid)
+        if want is None:
+            continue
+        got = [int(l[1:]) for l in out[1:] if l[0] == "p"]
+        # PLAY: the first one sent after the session had its SDP
+        plays = [p for p in ypos.get(cid, []) if got_sdp_pos < p < end]
+        if not plays:
+            if got and "run" in clauses:
+                return ("run", "RTSP subscriber %s received RTP packets without having sent PLAY" % cid)
+            continue
+        play = plays[0]
+        cand = [j for j, p in enumerate(pkts) if play < p["pos"] < end and p["pt"] is not None]
+        deliverable = [j for j in cand if pkts[j]["pt"] in (96, 97)]
+        gated = bool(cfg.get("rw")) and video_known_at[play]
+        if gated:
+            starts = [j for j in cand if pkts[j]["sdp"] is not None and rtp_gop_start(pkts[j]["sdp"][1], pkts[j]["body"])]
+            first = starts[0] if starts else None
+        else:
+            first = cand[0] if cand else None
+        if "gate" in clauses and got:
+            j0 = got[0]
+            if gated and not (pkts[j0]["sdp"] is not None and pkts[j0]["pt"] is not None and rtp_gop_start(pkts[j0]["sdp"][1], pkts[j0]["body"])):
+                return ("F-32", "RTSP subscriber %s: the first packet it received (p%d) does not start a GOP although the stream has video" % (cid, j0))
+        if "run" in clauses:
+            exp = [j for j in deliverable if first is not None and j >= first]
+            if got != exp:
+                if not got and exp:
+                    return ("held", "RTSP subscriber %s received nothing, packets from p%d on were due" % (cid, exp[0]))
+                return ("run", "RTSP subscriber %s received packets %s, due: %s" % (cid, got[:16], exp[:16]))
+    return None
